@@ -119,7 +119,21 @@ func main() {
 			// announce first, so a crash can be attributed to this case
 			fmt.Fprintf(out, "#%d\n", idx)
 			out.Flush()
-			res := runOne(line)
+			// watchdog: an operation that does not return (the code under test hangs) must not hang the check
+			limit := 120
+			if v, err := strconv.Atoi(os.Getenv("VERIF_CASE_TIMEOUT_S")); err == nil && v > 0 {
+				limit = v
+			}
+			done := make(chan string, 1)
+			go func(l string) { done <- runOne(l) }(line)
+			var res string
+			select {
+			case res = <-done:
+			case <-time.After(time.Duration(limit) * time.Second):
+				fmt.Fprintf(out, "%d\tHANG the operation did not return within %d s\n", idx, limit)
+				out.Flush()
+				os.Exit(3)
+			}
 			fmt.Fprintf(out, "%d\t%s\n", idx, res)
 			out.Flush()
 			idx++
